@@ -5,11 +5,12 @@ Every piece of output text carries its origin, so each Verus diagnostic can be m
 a repo line or a named contract clause.
 """
 from __future__ import annotations
-import hashlib, os, re
+import copy, hashlib, json, os, re
 from dataclasses import dataclass, field
 from typing import Dict, List, Optional, Tuple
 
 from rustlex import SourceFile, find_loops, find_closures, match_close, lex, LexError
+from rustlex import binding_names as rustlex_binding_names, renaming as rustlex_renaming
 from contracts import FnContract, Clause, ClauseBlock, load_all, ContractError
 
 REPO = os.environ.get('VP_REPO', '/repo')
@@ -42,6 +43,8 @@ class FnInfo:
     rewrites: List[str] = field(default_factory=list)
     lost: List[str] = field(default_factory=list)     # annotations whose anchor is gone in the current source (left out)
     auto_added: bool = False                          # helper pulled in automatically (no contract)
+    locals: List[str] = field(default_factory=list)   # names bound by the function, in source order (parameters, let/for patterns, closure parameters)
+    renamed: Dict[str, str] = field(default_factory=dict)   # R28: bindings renamed w.r.t. the baseline; the contract text was renamed with them
     assumed_clauses: List[str] = field(default_factory=list)   # contract clauses that are assumed, not proved, for this function
     gen_start: int = 0         # byte offsets in the generated file
     gen_end: int = 0
@@ -275,6 +278,63 @@ def _join(segs: List[Seg]) -> str:
     return ''.join(s.text for s in segs)
 
 
+_BASE = {}
+
+
+def _baseline() -> dict:
+    if 'j' not in _BASE:
+        try:
+            _BASE['j'] = json.load(open(os.path.join(VERIF, 'baseline', 'obligations.json')))
+        except (FileNotFoundError, json.JSONDecodeError):
+            _BASE['j'] = {}
+    return _BASE['j']
+
+
+def _baseline_locals() -> dict:
+    return _baseline().get('_fn_locals', {})
+
+
+def _baseline_sha() -> dict:
+    return _baseline().get('_fn_sha', {})
+
+
+def _sub_names(text, ren: dict):
+    if text is None or not isinstance(text, str):
+        return text
+    return re.sub(r'(?<![A-Za-z0-9_.])(%s)(?![A-Za-z0-9_(])' % '|'.join(re.escape(k) for k in sorted(ren, key=len, reverse=True)),
+                  lambda m: ren[m.group(1)], text)
+
+
+def rename_contract(c: FnContract, ren: dict) -> FnContract:
+    """R28: a copy of the contract block with every free occurrence of a renamed binding replaced (identifier-wise; not after `.`, not a
+    call).  Applies to clauses, loop/closure blocks, inserted proof text and anchors alike -- anchors quote the source, which was renamed."""
+    c2 = copy.deepcopy(c)
+
+    def blk(b):
+        for cl in b.clauses:
+            cl.expr = _sub_names(cl.expr, ren)
+    blk(c2.sig)
+    for l in c2.loops.values():
+        blk(l.block)
+        l.ghost = _sub_names(l.ghost, ren)
+        l.iterexpr = _sub_names(l.iterexpr, ren)
+    for k in c2.closures.values():
+        blk(k.block)
+        k.params = _sub_names(k.params, ren)
+        k.proof = _sub_names(k.proof, ren)
+    for ins in c2.inserts:
+        ins.text = _sub_names(ins.text, ren)
+        if isinstance(ins.arg, tuple):
+            ins.arg = tuple(_sub_names(x, ren) if isinstance(x, str) else x for x in ins.arg)
+        elif isinstance(ins.arg, str):
+            ins.arg = _sub_names(ins.arg, ren)
+    for r in c2.replaces:
+        r.old = _sub_names(r.old, ren)
+        r.new = _sub_names(r.new, ren)
+    c2.stubsig = _sub_names(c2.stubsig, ren)
+    return c2
+
+
 def extract_fn(unit: str, file: str, item: str, mode: str, contracts, canary: bool, opts: dict) -> Tuple[List[Seg], FnInfo]:
     sf = source(file)
     try:
@@ -286,6 +346,17 @@ def extract_fn(unit: str, file: str, item: str, mode: str, contracts, canary: bo
     raw = sf.text[it.start:it.end]
     info = FnInfo(unit, file, item, mode, sf.line_of(it.start), sf.line_of(it.end - 1),
                   hashlib.sha256(raw.encode()).hexdigest(), c)
+    if it.kind == 'fn':
+        info.locals = rustlex_binding_names(raw)
+        base = _baseline_locals().get(fn_label)
+        if c is not None and base is not None and _baseline_sha().get(fn_label) != info.sha256:
+            ren = rustlex_renaming(base, info.locals)
+            if ren:
+                # R28: the changed function binds the same things in the same order under other names -- the contract text follows
+                c = rename_contract(c, ren)
+                info.contract = c
+                info.renamed = ren
+                info.rewrites.append('R28:contract text follows renamed bindings %s' % ', '.join('%s->%s' % kv for kv in sorted(ren.items())))
     if any(it.start <= m < it.end for m in getattr(sf, 'r24_marks', [])):
         info.rewrites.append('R24:or-pattern with guard expanded')
     toks = sf.toks
